@@ -147,6 +147,9 @@ func (m *Model) runCheck(prop, tier string, keep bool, timeout int) int {
 	if prop == "C11" || prop == "C01" {
 		allObls = append(allObls, m.structuralErrorsUsed(prop)...)
 	}
+	if prop == "C20" || prop == "C01" {
+		allObls = append(allObls, m.structuralRecursion(prop)...)
+	}
 	// discharge, all functions in one pool
 	type task struct {
 		e *Enc
@@ -880,4 +883,176 @@ func (m *Model) structuralC20() []*Obl {
 	}
 	return []*Obl{{Name: "package lang#structural:nesting-counters-written-only-by-their-counting-functions", Kind: "structural", Props: []string{"C20"}, Status: status, Solver: "govc (SSA scan)", Output: strings.Join(bad, "\n"), Func: "package lang",
 		Src: "Evaluator.evalDepth is stored only by evalExpr/evalStatement, Parser.depth only by expressionWithPrec/statement, stackFrame.depth only by pushFrame"}}
+}
+
+// structuralRecursion: every cycle of the call graph of package lang passes through one of the four
+// functions that count nesting depth against a limit (C20, C01: recursion of any shape is refused by a
+// limit, not by the Go stack), or uses only the listed edges, each with the reason its depth is bounded.
+// The call graph is static callees plus, for interface method calls, every method of that name on a
+// type of package lang that implements the interface (class-hierarchy approximation).
+func (m *Model) structuralRecursion(prop string) []*Obl {
+	counted := map[string]bool{"Evaluator.evalExpr": true, "Evaluator.evalStatement": true, "Parser.expressionWithPrec": true, "Parser.statement": true}
+	// caller -> callee edges that may lie on a cycle without a counter, with the bound
+	allowed := map[string]string{
+		// the interface call in the default arm of leftmostToken's type switch has a receiver that is neither
+		// an ExprBinary nor an ExprCall, so it does not come back (the two arms are loops, not calls)
+		"leftmostToken -> ExprBinary.Token": "default arm excludes the node kind",
+		"leftmostToken -> ExprCall.Token":   "default arm excludes the node kind",
+		"ExprBinary.Token -> leftmostToken": "no recursion behind it, see above",
+		"ExprCall.Token -> leftmostToken":   "no recursion behind it, see above",
+		// one level per nesting level of a decoded JSON value: bounded by the decoder's nesting limit (10000)
+		"NewValue -> NewValue": "JSON nesting limit",
+		// one level per container on the path from the value printed or converted; the path is scanned for
+		// recurrence, so a cycle ends the descent; depth is the value's nesting depth (DESIGN.md 7: memory)
+		"Value.prettyStringInteral -> Value.prettyStringInteral": "value nesting depth, cycles cut",
+		"Value.toGoValueInterval -> Value.toGoValueInterval":     "value nesting depth, cycles cut",
+		// one level per link of a placeholder chain a.b.c...: one link per member access evaluated, which
+		// evalExpr counts
+		"Evaluator.createSpeculativeObjects -> Evaluator.createSpeculativeObjects": "placeholder chain <= evaluation depth",
+		"existingContainer -> existingContainer":                                   "placeholder chain <= evaluation depth",
+		// one level per link of the prototype chain: array/string/number prototype -> object prototype -> none
+		// (the prototypes are package singletons; programs cannot set Proto)
+		"Value.GetMember -> Value.getProtoMember": "prototype chain of length <= 2",
+		"Value.getProtoMember -> Value.GetMember": "prototype chain of length <= 2",
+		// one level per nesting level of an array pattern, which the parser counts
+		"Evaluator.evalCaseMatch -> Evaluator.evalCaseMatch": "pattern nesting <= parse depth",
+	}
+	inLang := func(f *ssa.Function) bool {
+		pkg := f.Pkg
+		for p := f.Parent(); pkg == nil && p != nil; p = p.Parent() {
+			pkg = p.Pkg
+		}
+		return pkg != nil && pkg.Pkg.Name() == "lang"
+	}
+	nameOf := map[*ssa.Function]string{}
+	for n, f := range m.funcs {
+		if inLang(f) {
+			nameOf[f] = n
+		}
+	}
+	// methods by name, for interface calls
+	byMethod := map[string][]*ssa.Function{}
+	for f, n := range nameOf {
+		if f.Signature.Recv() != nil {
+			byMethod[f.Name()] = append(byMethod[f.Name()], f)
+		}
+		_ = n
+	}
+	edges := map[string]map[string]bool{}
+	add := func(a, b string) {
+		if edges[a] == nil {
+			edges[a] = map[string]bool{}
+		}
+		edges[a][b] = true
+	}
+	for f, n := range nameOf {
+		owner := n
+		for _, b := range f.Blocks {
+			for _, ins := range b.Instrs {
+				var cc *ssa.CallCommon
+				switch x := ins.(type) {
+				case *ssa.Call:
+					cc = &x.Call
+				case *ssa.Defer:
+					cc = &x.Call
+				case *ssa.Go:
+					cc = &x.Call
+				}
+				if cc == nil {
+					continue
+				}
+				if cc.IsInvoke() {
+					it, _ := cc.Value.Type().Underlying().(*types.Interface)
+					for _, g := range byMethod[cc.Method.Name()] {
+						rt := g.Signature.Recv().Type()
+						if it == nil || types.Implements(rt, it) {
+							add(owner, nameOf[g])
+						}
+					}
+					continue
+				}
+				if g := cc.StaticCallee(); g != nil {
+					if gn, ok := nameOf[g]; ok {
+						add(owner, gn)
+					}
+					continue
+				}
+				// a call through a function value: the parse-rule table and native functions; parselets are
+				// reached only from expressionWithPrec (counted), natives only from callFunction under evalExpr
+			}
+		}
+	}
+	// drop the counted functions, then every remaining cycle edge must be listed
+	var bad []string
+	index := map[string]int{}
+	low := map[string]int{}
+	onStack := map[string]bool{}
+	var stack []string
+	comp := map[string]int{}
+	n, nc := 0, 0
+	var strong func(v string)
+	strong = func(v string) {
+		index[v], low[v] = n, n
+		n++
+		stack = append(stack, v)
+		onStack[v] = true
+		for _, w := range sortedKeys(edges[v]) {
+			if counted[w] {
+				continue
+			}
+			if _, seen := index[w]; !seen {
+				strong(w)
+				if low[w] < low[v] {
+					low[v] = low[w]
+				}
+			} else if onStack[w] && index[w] < low[v] {
+				low[v] = index[w]
+			}
+		}
+		if low[v] == index[v] {
+			for {
+				w := stack[len(stack)-1]
+				stack = stack[:len(stack)-1]
+				onStack[w] = false
+				comp[w] = nc
+				if w == v {
+					break
+				}
+			}
+			nc++
+		}
+	}
+	for _, v := range sortedKeys(edges) {
+		if counted[v] {
+			continue
+		}
+		if _, seen := index[v]; !seen {
+			strong(v)
+		}
+	}
+	for _, a := range sortedKeys(edges) {
+		if counted[a] {
+			continue
+		}
+		for _, b := range sortedKeys(edges[a]) {
+			if counted[b] {
+				continue
+			}
+			if comp[a] == comp[b] && (a != b || edges[a][a]) {
+				// a and b lie on a common cycle (or a calls itself)
+				if a != b {
+					// same component: the edge is on some cycle
+				}
+				if allowed[a+" -> "+b] == "" {
+					bad = append(bad, fmt.Sprintf("%s -> %s is on a call cycle that passes no depth counter", a, b))
+				}
+			}
+		}
+	}
+	st := "unsat"
+	if len(bad) > 0 {
+		st = "failed"
+	}
+	return []*Obl{{Name: "package lang#structural:recursion-is-depth-counted-or-bounded", Kind: "structural", Props: []string{prop}, Status: st, Solver: "govc (SSA call graph)", Output: strings.Join(bad, "\n"), Func: "package lang",
+		Src: "every call cycle in package lang passes through evalExpr, evalStatement, expressionWithPrec or statement (which count depth against a limit), or uses only listed edges whose depth is bounded otherwise"}}
 }
